@@ -1092,6 +1092,15 @@ theorem idleStep_eff {r : Resp} {c : Conn} (hw : WFp r) (h : Inv r c) (hne : c.s
   | closed => exact absurd hs hne
 
 
+theorem rank_idleClosed (r : Resp) (c : Conn) : rank r (idleClosed c) = rank r c := by
+  unfold idleClosed; split <;> rfl
+
+theorem Eff.idleClosed {r : Resp} {c c' : Conn} (e : Eff r c c') : Eff r c (idleClosed c') :=
+  ⟨by rw [idleClosed_st]; exact e.open_, by rw [idleClosed_out, rank_idleClosed]; exact e.mono⟩
+
+theorem Strict.idleClosed {r : Resp} {c c' : Conn} (e : Strict r c c') : Strict r c (idleClosed c') := by
+  unfold Strict; rw [idleClosed_out, rank_idleClosed]; exact e
+
 theorem handleIdle_eff {r : Resp} {c : Conn} (hw : WFp r) (h : Inv r c) (hne : c.st ≠ .closed)
     (app : AppAns) (happ : app ≠ .err) :
     Eff r c (handleIdle r c app true) ∧ (app = .ready → idleActive c.st → Strict r c (handleIdle r c app true)) := by
@@ -1103,7 +1112,8 @@ theorem handleIdle_eff {r : Resp} {c : Conn} (hw : WFp r) (h : Inv r c) (hne : c
   obtain ⟨e3, _⟩ := idleStep_eff hw i2 e2.open_ app happ
   have i3 := idleStep_inv hw.wf i2 app true
   obtain ⟨e4, _⟩ := idleStep_eff hw i3 e3.open_ app happ
-  exact ⟨(e1.trans e2).trans (e3.trans e4), fun ha hi => (g1 ha hi).trans_left (e2.trans (e3.trans e4))⟩
+  exact ⟨((e1.trans e2).trans (e3.trans e4)).idleClosed,
+         fun ha hi => ((g1 ha hi).trans_left (e2.trans (e3.trans e4))).idleClosed⟩
 
 theorem nonfinal_cases {s : St} (h1 : s ≠ .closed) (h2 : s ≠ .done) :
     (s = .headersSending ∨ s = .normalBodyReady ∨ s = .chunkedBodyReady ∨ s = .footersSending) ∨ idleActive s := by
@@ -1162,8 +1172,11 @@ theorem run_progress {r : Resp} (hw : WFp r) : ∀ (xs : List Round) (c : Conn),
     · exact Or.inl hd
     · by_cases hdone : c.st = .done
       · left
-        rw [round_final x (Or.inr hdone), run_final xs c (Or.inr hdone)]
-        exact hdone
+        have hst : (idleClosed c).st = .closed ∨ (idleClosed c).st = .done :=
+          Or.inr (by rw [idleClosed_st]; exact hdone)
+        rw [round_final x (Or.inr hdone)]
+        rcases run_final (r := r) xs (idleClosed c) hst with e' | e' <;> rw [e'] <;>
+          simp only [idleClosed_st] <;> exact hdone
       · right
         have hle := e.mu_le h1
         unfold countGood at hm ⊢
